@@ -77,6 +77,7 @@ static void scen_valid (void *arg)
 		s = v->route ? sf_open (path, SFM_WRITE, &si) : sf_open_virtual (&MVIO, SFM_WRITE, &si, &wm) ;
 		if (!s) return ;
 		if (v->meta) all_meta (s, v->meta) ;
+		if (v->meta && (v->extra & 1)) all_meta (s, v->meta) ;		/* every item set a second time: the first allocation must not be lost */
 		for (i = 0 ; i < 64 * 8 ; i++) fb [i] = 0.01f * (i % 37) ;
 		for (i = 0 ; i < v->nframes ; i += 64) sf_writef_float (s, fb, v->nframes - i > 64 ? 64 : v->nframes - i) ;
 		if (v->extra & 1) sf_command (s, SFC_UPDATE_HEADER_NOW, NULL, 0) ;
